@@ -818,6 +818,19 @@ class LabelList(Model):
         n, elem, cnt = self._get(self.h.S)
         return _mutable_copy(n, elem, cnt)
 
+    def m_dictcomp(self, it, e, env, module):
+        """{x: D[x] for x in L}: the restriction of the abstract map D to the labels of L (every label must be a key)"""
+        import ast as _ast
+        g = e.generators[0]
+        if not (isinstance(g.target, _ast.Name) and isinstance(e.key, _ast.Name) and e.key.id == g.target.id and isinstance(e.value, _ast.Subscript)
+                and isinstance(e.value.slice, _ast.Name) and e.value.slice.id == g.target.id and isinstance(e.value.value, _ast.Name)):
+            raise Unsupported('dict comprehension shape over a label list')
+        d = it.lookup_name(e.value.value.id, env, module)
+        if not hasattr(d, 'm_restrict'):
+            raise Unsupported('dict comprehension over a label list: value map of type ' + type(d).__name__)
+        n, elem, cnt = self._get(self.h.S)
+        return d.m_restrict(it, n, elem, cnt)
+
     def m_filter_view(self, it, pred):
         n, elem, cnt = self._get(self.h.S)
         return FilterView(it, n, elem, cnt, pred)
